@@ -537,6 +537,14 @@ func revokeCert(sc *storageContext, config *crlConfig, cert *x509.Certificate) (
 			resp.Data["revocation_time_rfc3339"] = curRevInfo.RevocationTimeUTC.Format(time.RFC3339Nano)
 		}
 
+		if !config.AutoRebuild {
+			// An earlier attempt may have been interrupted after the entry was written and
+			// before the CRL was rebuilt; make sure the CRL reflects the entry before reporting success.
+			if _, crlErr := sc.Backend.crlBuilder.rebuild(sc, false); crlErr != nil {
+				return nil, fmt.Errorf("error encountered during CRL building: %w", crlErr)
+			}
+		}
+
 		return resp, nil
 	}
 
